@@ -198,6 +198,11 @@ def run_rules(prop, tier, repo=None, cache=None, target=None):
         mod.check(ctx)
     except mirlib.AnchorMissing as e:
         ctx.missing(prop + ".anchor", str(e))
+    except Exception as e:  # fail closed: a rule that cannot interpret the code decides nothing
+        import traceback
+        tb = traceback.extract_tb(e.__traceback__)
+        where = "%s:%d" % (os.path.basename(tb[-1].filename), tb[-1].lineno) if tb else "?"
+        ctx.missing(prop + ".internal", "rule engine could not interpret the code (%s: %s at %s)" % (type(e).__name__, str(e)[:120], where))
     return ctx, mod
 
 
